@@ -90,6 +90,7 @@ def _day(ctx, sp, c, dn, point_level):
     _, doy = c.ord_from_dn(dn)
     wk = c.week_from_dn(dn)
     case = lambda: {"kind": "day", "mode": sp, "dn": dn}  # noqa: E731
+    impl._H.ticks = 0
     ctx.state_count += 1
     ctx.sample(lambda: {"mode": sp, "cal": [y, m, d], "ord": [y, doy], "week": list(wk)})
     _call(ctx, "ord_from_cal", D.get_ordinal_date_from_calendar_date, (y, m, d), (y, doy), case)
